@@ -58,6 +58,8 @@ class C08World(C01World):
         # harness-side observation of "the version validated against": the
         # metadata file read by refresh() inside MetadataManager.commit
         self._tl = threading.local()
+        self.last_req: Dict[str, str] = {}
+        self.lock_ids: Dict[str, Any] = {}
         self.validated: Dict[str, str] = {}
         self.cas_log: List[Dict[str, Any]] = []
         w = self
@@ -89,8 +91,16 @@ class C08World(C01World):
         def after(req, res):
             if req.op == "PUT" and req.key.endswith(HINT_NAME) and not isinstance(res, BaseException):
                 a = root_actor(req.actor)
+                # who owns the lock object at the commit point, and did this committer read its ownership
+                # (the fence) as its last request before the pointer write?
+                lock_obj = fake.objs.get(f"{self.location}/.locks/metadata.lock")
+                owner = None if lock_obj is None else lock_obj.body.decode().split(":", 1)[0]
                 self.cas_log.append({"actor": a, "replaced": self._prev.get(req.idx), "validated": self.validated.get(a),
-                                     "conditional": req.cond, "new": fake.objs[req.key].body.decode()})
+                                     "conditional": req.cond, "new": fake.objs[req.key].body.decode(),
+                                     "lock_owner_at_commit_point": owner, "my_lock_id": self.lock_ids.get(a),
+                                     "previous_request": self.last_req.get(req.actor)})
+            if "." not in req.actor:
+                self.last_req[req.actor] = req.label()
 
         fake.gates.append(gate)  # runs after the scheduler's gate, i.e. immediately before the effect
         fake.after.append(after)
@@ -109,6 +119,12 @@ class C08World(C01World):
         self.validated = {}
         self.cas_log = []
         self._prev = {}
+        self.last_req = {}
+        self.lock_ids = {}
+        if self.lock_variant == "cas":
+            for i in range(len(self.ops)):
+                lp = self.handle(i).metadata_manager.lock_provider
+                self.lock_ids[chr(ord("A") + i)] = getattr(lp, "lock_id", None)
 
     # ---- pause / resume deviations -----------------------------------------
     def extra_options(self, ex: Execution) -> List[Tuple]:
@@ -118,9 +134,17 @@ class C08World(C01World):
                 continue
             if a.frozen:
                 opts.append(("resume", a.name))
-            elif a.state != DONE and ex.jumps < self.max_pauses and a.steps > 0:
+            elif a.state != DONE and ex.jumps < self.max_pauses and a.steps > 0 and \
+                    (not self.cfg.get("pause_only") or a.name in self.cfg["pause_only"]) and self._holds_lock(a.name):
                 opts.append(("pause+61s", a.name))
         return opts
+
+    def _holds_lock(self, name: str) -> bool:
+        """Pauses are offered only to a committer that currently owns the lock object: pausing a process that holds
+        nothing only delays it (covered by ordinary scheduling), and time passing under somebody else's live lease is
+        the clock-jump deviation."""
+        o = self.s3w.s3.objs.get(f"{self.location}/.locks/metadata.lock")
+        return o is not None and o.body.decode().split(":", 1)[0] == self.lock_ids.get(name)
 
     def apply_extra(self, ex: Execution, opt: Tuple) -> None:
         kind, name = opt
@@ -141,6 +165,13 @@ class C08World(C01World):
                 problems.append(f"{c['actor']} advanced the pointer with an unconditional PUT")
             elif c["replaced"] is not None and c["validated"] is not None and c["replaced"].strip() != c["validated"]:
                 problems.append(f"{c['actor']} replaced pointer '{c['replaced']}' but validated against '{c['validated']}'")
+            if self.lock_variant == "cas" and c.get("my_lock_id") and c["lock_owner_at_commit_point"] != c["my_lock_id"]:
+                # the lock was lost before the commit point: acknowledging is tolerable only if the committer's last
+                # request before the pointer write was its ownership read (the loss then happened after the fence)
+                prev = c.get("previous_request") or ""
+                if not (prev.startswith("GET") and prev.endswith("metadata.lock")):
+                    problems.append(f"{c['actor']} advanced the pointer after losing its lock without re-checking ownership "
+                                    f"before the commit point")
         for a in ex.actors:
             if "." in a.name:
                 continue
@@ -198,18 +229,19 @@ def run_config(cfg: Dict[str, Any]) -> Dict[str, Any]:
 def configs(tier: str, seed: int) -> List[Dict[str, Any]]:
     out = []
 
-    def add(ops, lock, bound=None, max_jumps=0, max_pauses=0, sample=False, max_exec=None):
-        cid = f"{lock}/{'+'.join(ops)}/jumps{max_jumps}/pauses{max_pauses}" + (f"/b{bound}" if bound is not None else "")
+    def add(ops, lock, bound=None, max_jumps=0, max_pauses=0, sample=False, max_exec=None, pause_only=None):
+        cid = f"{lock}/{'+'.join(ops)}/jumps{max_jumps}/pauses{max_pauses}" + (f"/b{bound}" if bound is not None else "") \
+            + (f"/pause-only-{'+'.join(pause_only)}" if pause_only else "")
         out.append({"id": cid, "backend": "s3", "topology": "separate", "clock": "TICK", "ops": list(ops), "lock": lock,
                     "bound": bound, "max_jumps": max_jumps, "max_pauses": max_pauses, "tier": tier, "seed": seed,
-                    "sample": sample, "max_exec": max_exec})
+                    "sample": sample, "max_exec": max_exec, "pause_only": pause_only})
 
     pairs = [("append", "append"), ("append", "expire"), ("append", "delete_snap_first")]
     for lock in ("cas", "grantall"):
         for p in pairs:
             add(p, lock, sample=(lock == "cas" and p == pairs[0]))
     if tier == "quick":
-        add(("append", "append"), "cas", bound=0, max_pauses=1)
+        add(("append", "append"), "cas", bound=1, max_pauses=1, pause_only=["A"])  # symmetric actors: pausing A suffices
         add(("append", "expire"), "cas", bound=0, max_pauses=1)
         add(("append", "append"), "cas", bound=1, max_jumps=1)
         add(("append", "append"), "grantall", bound=2, max_jumps=1)
@@ -236,7 +268,8 @@ def run(tier: str, seed: int) -> Report:
         "in-memory S3: strongly consistent, AWS conditional-write semantics, ETag = md5(body), LastModified = virtual clock",
         "a delayed in-flight conditional PUT = the committer is descheduled at the request while the clock jumps past the lease; "
         "'applied but response delayed' = a preemption right after the request",
-        "process pause freezes a committer together with its heartbeat thread; lease 60 s, jump 61 s",
+        "process pause freezes a committer together with its heartbeat thread; lease 60 s, jump 61 s; pauses are placed "
+        "only while the paused committer owns the lock object (elsewhere a pause is an ordinary delay)",
         "the version 'validated against' is observed as the metadata file read inside MetadataManager.commit (harness-side wrapper)",
     ]
     return rep
